@@ -65,6 +65,12 @@ Theorem C08_index_split_supervoxel : forall idx sv split remain rl idx',
 Proof. exact split_sv_index_spec. Qed.
 Print Assumptions C08_index_split_supervoxel.
 
+(* splitIndex (body split): the kept and the new index together hold the old counts. *)
+Theorem C08_index_split_conserves : forall idx bs sm r s,
+  split_index idx bs sm = Ok (r, s) -> num_voxels r + num_voxels s = num_voxels idx.
+Proof. exact split_index_conserves. Qed.
+Print Assumptions C08_index_split_conserves.
+
 (* CalcNumLabels is the per-label difference of voxel counts. *)
 Theorem C08_calc_num_labels : forall cur prev s,
   zget s (calc_num_labels cur prev) = if s =? 0 then 0%Z else (Z.of_N (occ cur s) - Z.of_N (occo prev s))%Z.
